@@ -113,15 +113,32 @@ class Tree:
             cmd += ["-J", render_path(j, self.root)]
         for o in self.opts:
             cmd += [OPT_FLAG[o["route"]], o["var"] + "=" + render_path(o["path"], self.root)]
-        cmd.append(render_path(self.case["main"], self.root))
+        if self.virtual():
+            # family "virt": the text of the main file is the program, given with -e (odd tags) or on
+            # standard input (even tags); the file itself stays in the tree but is not named
+            if self.stdin_variant():
+                cmd.append("-")
+            else:
+                cmd += ["-e", self.texts[self.main_node()]]
+        else:
+            cmd.append(render_path(self.case["main"], self.root))
         return cmd
+
+    def virtual(self):
+        return self.case.get("fam") == "virt"
+
+    def stdin_variant(self):
+        # decided by the scenario (not by chance): half of the scenarios go through standard input
+        return self.virtual() and (len(self.case["jp"]) + len(self.case["fs"])) % 2 == 0
 
     def run(self, binary, timeout=60):
         env = dict(os.environ)
         env["NO_COLOR"] = "1"
         try:
             p = subprocess.run(self.command(binary), cwd=self.root, env=env, capture_output=True,
-                               timeout=timeout)
+                               timeout=timeout,
+                               input=(self.texts[self.main_node()].encode("ascii") if self.stdin_variant() else None),
+                               stdin=(None if self.stdin_variant() else subprocess.DEVNULL))
         except subprocess.TimeoutExpired:
             return {"timeout": True, "rc": None, "stdout": "", "stderr": ""}
         return {"rc": p.returncode, "stdout": p.stdout.decode("utf-8", "replace"),
@@ -150,11 +167,17 @@ class Tree:
             return list(it["data"])
         raise ValueError(t)
 
+    def shown_this_file(self, node, this_file):
+        tf = this_file[node]
+        if self.virtual() and node == self.main_node() and list(tf) == ["<cmdline>"]:
+            return "<stdin>" if self.stdin_variant() else "<cmdline>"
+        return norm_path(render_path(tf, self.root))
+
     def value(self, node, res, this_file, depth=0):
         if depth > 50:
             raise ValueError("cyclic expected value")
         return {"tag": f"T{self.fs[node]['tag']}",
-                "thisFile": norm_path(render_path(this_file[node], self.root)),
+                "thisFile": self.shown_this_file(node, this_file),
                 "eager": [self.item(x, res, this_file, depth) for x in res[node]]}
 
     def expected_value(self):
@@ -274,7 +297,7 @@ def compare(tree, out):
                                                    f"{out['stderr'][:300]}"))
         owner = tuple(err["file"])
         this_file = as_map(case["thisFile"])
-        want = (norm_path(render_path(this_file[owner], tree.root)), tree.where[owner][err["slot"]])
+        want = (tree.shown_this_file(owner, this_file), tree.where[owner][err["slot"]])
         # TRACE notes printed earlier carry locations too: look from the first error line on
         m0 = re.search(r"^error", out["stderr"], re.M)
         tail = out["stderr"][m0.start():] if m0 else ""
